@@ -35,7 +35,11 @@ RULE = ("exhaustive grids, nothing sampled: (A) create_node on each of the 66 no
         "8 for n-ary, 5 for the others; thorough: all 14) and arity 4-5 over 4 sorts for n-ary operators; (B) every "
         "FormulaManager constructor (95, incl. derived ones) x every argument-sort tuple x integer-parameter corners (extract "
         "bounds on/over the width, rotate/extend/repeat/shift by 0,1,w-1,w,w+1,2w+1,negative, non-integers) and value corners "
-        "of the constant constructors; both grids also with the SAME node in two or all argument positions (same symbol, "
+        "of the constant constructors; every constructor also on LITERAL arguments of every sort (Bool, Int, Real, String, "
+        "BV1/2/8, three array values); both grids also over 12 'confusable' sorts that print like another sort (declared "
+        "sorts named Int/Real/Bool/String/BV{8}, nullary |Pair{Int}| next to Pair(Int), a declared Array/2) compared by "
+        "declaration identity; quantifier binder lists of length 1-3 mixing plain symbols, function symbols and "
+        "non-symbols in every position; both grids also with the SAME node in two or all argument positions (same symbol, "
         "constant, compound term of every sort); (H) random create_node histories against Impl/CreateNode; (T) random well-typed formulas "
         "through simplify/substitute/nnf/prenex/aig/cnf/ackermannize/parse(print). A case is non-trivial when the application "
         "is accepted by the implementation or by the sorting rules (not rejected by both), a transformation case when the "
@@ -45,6 +49,8 @@ ASSUMPTIONS = [
     "function-typed symbols are declarations, not terms: a `symbol` node with a function signature has no sort",
     "pow is not an SMT-LIB operator: the specification gives it the rank Int Int -> Real / Real Real -> Real (pySMT's documented one)",
     "algebraic constants are only built through create_node with a dummy payload (no z3 in the sandbox)",
+    "Core.Ty names an instance of a declared sort by its printed name: terms that mention two different sorts printing "
+    "alike (Pair(Int) and |Pair{Int}|) or a declared Array/2 are compared with the rank oracle (S) only, not with typeOf (K)",
 ]
 
 # =====================================================================================
@@ -78,9 +84,134 @@ U4 = [B, I, R, V(8)]
 SNAME = {s: n for n, s in UNIVERSE}
 
 
+def P(name, *args):
+    """instance of a declared sort constructor name/len(args)"""
+    return ("P", name, tuple(args))
+
+
+def printed(s):
+    """the name pySMT prints for a sort (NOT injective: that is what the confusable sorts probe)"""
+    k = s[0]
+    if k in "BIRS":
+        return {"B": "Bool", "I": "Int", "R": "Real", "S": "String"}[k]
+    if k == "V":
+        return "BV{%d}" % s[1]
+    if k == "A":
+        return "Array{%s, %s}" % (printed(s[1]), printed(s[2]))
+    if k == "C":
+        return s[1]
+    if k == "P":
+        return "%s{%s}" % (s[1], ", ".join(printed(a) for a in s[2]))
+    return "->"
+
+
+# sorts that print like another sort: declared sorts named like a builtin sort, a nullary declared
+# sort named like an instance of a unary sort constructor, a declared Array/2 (F61)
+PAIR_INT = P("Pair", I)
+CONFUSABLE = [
+    ("dInt", ("C", "Int")), ("dReal", ("C", "Real")), ("dBool", ("C", "Bool")), ("dString", ("C", "String")),
+    ("dBV8", ("C", "BV{8}")), ("PairInt", PAIR_INT), ("dPairInt", ("C", "Pair{Int}")),
+    ("AIR", A(I, R)), ("dArrayIR", P("Array", I, R)),
+    ("APairI", A(PAIR_INT, I)), ("AdPairI", A(("C", "Pair{Int}"), I)), ("AdIntI", A(("C", "Int"), I)),
+]
+UC = [B, I, R, S, V(8)] + [s_ for _, s_ in CONFUSABLE]
+for _n, _s in CONFUSABLE:
+    SNAME[_s] = _n
+
+
+def canon_sort(s):
+    """the sort as the wire format / Core.Ty sees it: an instance of a declared sort is opaque"""
+    if s is None or not isinstance(s, tuple):
+        return s
+    k = s[0]
+    if k == "P":
+        return ("C", printed(s))
+    if k == "A":
+        return ("A", canon_sort(s[1]), canon_sort(s[2]))
+    if k == "F":
+        return ("F", canon_sort(s[1]), tuple(canon_sort(p_) for p_ in s[2]))
+    return s
+
+
+def canon_raw(t):
+    o, p, ch = t
+    if p is not None:
+        if p[0] == "y":
+            p = ("y", p[1], canon_sort(p[2]))
+        elif p[0] == "t":
+            p = ("t", canon_sort(p[1]))
+        elif p[0] == "Q":
+            p = ("Q",) + tuple((n_, canon_sort(t_)) for n_, t_ in p[1:])
+    return (o, p, tuple(canon_raw(c) for c in ch))
+
+
+def sorts_of_raw(t, acc=None):
+    """every sort mentioned in a raw tree"""
+    if acc is None:
+        acc = set()
+    o, p, ch = t
+    if p is not None:
+        if p[0] == "y":
+            sorts_in(p[2], acc)
+        elif p[0] == "t":
+            sorts_in(p[1], acc)
+        elif p[0] == "Q":
+            for _, t_ in p[1:]:
+                sorts_in(t_, acc)
+    for c in ch:
+        sorts_of_raw(c, acc)
+    return acc
+
+
+def outside_model(t):
+    """Core.Ty names an instance of a declared sort by its printed name, so two different sorts that
+    print alike are one sort for the Lean model; and pySMT itself identifies a declared Array/2 with
+    the builtin array sort (F61).  Terms mentioning such a pair are judged by S only."""
+    ss = sorts_of_raw(t)
+    if any(x[0] == "P" and x[1] == "Array" for x in ss):
+        return True
+    seen = {}
+    for x in ss:
+        if x[0] in ("C", "P"):
+            k = printed(x)
+            if k in seen and seen[k] != x:
+                return True
+            seen[k] = x
+    return False
+
+
+def homonym_key(sort_list):
+    """'declared-Array/2' when the case involves an instance of a declared sort constructor named Array
+    (pySMT's type equality identifies it with the builtin array sort: known finding F61)"""
+    acc = set()
+    for x in sort_list:
+        if x is not None:
+            sorts_in(x, acc)
+    return "declared-Array/2" if any(x[0] == "P" and x[1] == "Array" for x in acc) else "none"
+
+
+def sorts_in(s, acc):
+    acc.add(s)
+    if s[0] == "A":
+        sorts_in(s[1], acc)
+        sorts_in(s[2], acc)
+    elif s[0] == "F":
+        sorts_in(s[1], acc)
+        for p_ in s[2]:
+            sorts_in(p_, acc)
+    elif s[0] == "P":
+        for p_ in s[2]:
+            sorts_in(p_, acc)
+    return acc
+
+
 def sort_name(s):
     if s in SNAME:
         return SNAME[s]
+    if s[0] == "P":
+        return "%s(%s)" % (s[1], ",".join(sort_name(a) for a in s[2]))
+    if s[0] == "C":
+        return "|%s|" % s[1]
     if s[0] == "V":
         return "BV%d" % s[1]
     if s[0] == "A":
@@ -111,6 +242,8 @@ def to_pysmt(env, s):
         return tm.ArrayType(to_pysmt(env, s[1]), to_pysmt(env, s[2]))
     if k == "C":
         return tm.Type(s[1], 0)
+    if k == "P":
+        return tm.get_type_instance(tm.Type(s[1], len(s[2])), *[to_pysmt(env, a) for a in s[2]])
     if k == "F":
         return tm.FunctionType(to_pysmt(env, s[1]), [to_pysmt(env, p) for p in s[2]])
     raise ValueError(s)
@@ -131,7 +264,9 @@ def from_pysmt(t):
         return A(from_pysmt(t.index_type), from_pysmt(t.elem_type))
     if t.is_function_type():
         return F(from_pysmt(t.return_type), *[from_pysmt(p) for p in t.param_types])
-    return ("C", str(t))
+    if t.args:          # instance of a declared sort constructor (read through basename/args, not the name)
+        return ("P", t.basename, tuple(from_pysmt(a) for a in t.args))
+    return ("C", t.basename)
 
 
 def enc_sort(s):
@@ -144,6 +279,8 @@ def enc_sort(s):
         return "A %s %s" % (enc_sort(s[1]), enc_sort(s[2]))
     if k == "C":
         return "C " + wire.hexs(s[1])
+    if k == "P":        # Core: an instance of a declared sort is the opaque sort of that name
+        return "C " + wire.hexs(printed(s))
     raise wire.OutOfFragment("function type as a sort")
 
 
@@ -427,7 +564,10 @@ def payload_corners(o):
         ps = [("y", n, s) for n, s in FN_SYMS]
         return ps + [("y", "c_Int", I)], ps
     if o in ("forall", "exists"):
-        return [("Q", ("qi", I)), ("Q", ("qb", B), ("qv", V(8))), ("Q",), ("Q", ("qf", F(I, I))), None], \
+        return [("Q", ("qi", I)), ("Q", ("qb", B), ("qv", V(8))), ("Q",), ("Q", ("qf", F(I, I))),
+                ("Q", ("qi", I), ("qf", F(I, I))), ("Q", ("qf", F(I, I)), ("qi", I)),
+                ("Q", ("qi", I), ("qb", B), ("qf", F(I, I))), ("Q", ("qf", F(I, I)), ("qi", I), ("qb", B)),
+                ("Q", ("qi", I), ("qf", F(I, I)), ("qb", B)), ("Q", ("qf", F(I, I)), ("qg", F(B, B, I))), None], \
                [("Q", ("qi", I))]
     if o in BV_UN or o in BV_BIN:
         return [ints(1), ints(2), ints(8), ints(3), ints(8, 1), ints(), None], [ints(8), ints(2)]
@@ -564,6 +704,11 @@ def run_grid_a_op(job):
     # the same node in every argument position (hash-consing makes equal operands one object)
     small, big = payload_corners(o)
     cases += [((s_, s_), p, True) for s_ in U14 for p in small] + [((s_, s_, s_), p, True) for s_ in U14 for p in big]
+    # sorts that print like another sort (declared `Int`, `Pair{Int}` vs Pair(Int), declared Array/2 ...)
+    few = list(dict.fromkeys(list(big) + list(small[:2])))
+    cases += [(ss, p, False) for n_ in (1, 2) for ss in itertools.product(UC, repeat=n_) for p in few]
+    if o in ("ite", "arrayStore", "function", "arrayValue"):
+        cases += [(ss, p, False) for ss in itertools.product(UC, repeat=3) for p in big]
     for ss, p, same in cases:
         if p not in pcache:
             pcache[p] = real_payload(env, o, p)
@@ -891,10 +1036,12 @@ def model(name, args, extra):
         o = "bvSle" if extra[0] else "bvUle"
         return m_minmax(lambda x, y: node(o, None, x, y), a, name == "MinBV")
     if name == "ToReal":
-        s = sym_sort(a[0])
+        s = sort_of(a[0])              # the arguments of the grid are well-typed terms
         if s == R:
             return a[0]
         if s == I:
+            if a[0][0] == "intConst":
+                return real_t(a[0][1][1])
             return node("toReal", None, a[0])
         raise Reject("ToReal: argument is neither Int nor Real")
     if name == "Div":
@@ -1161,10 +1308,111 @@ def repeated_tuples(n, others):
 
 
 def grid_b_cases(name, tier):
-    for c in grid_b_cases_distinct(name, tier):
-        yield c
-    for c in grid_b_cases_repeated(name, tier):
-        yield c
+    seen = set()
+    for gen_ in (grid_b_cases_distinct, grid_b_cases_repeated, grid_b_cases_constants, grid_b_cases_confusable,
+                 grid_b_cases_binders):
+        for c in gen_(name, tier):
+            if c not in seen:
+                seen.add(c)
+                yield c
+
+
+ARR_II = node("arrayValue", ("t", I), int_t(0))
+CONST_TERMS = [TRUE_T, FALSE_T, int_t(7), int_t(0), real_t(Fraction(1, 2)), real_t(0), str_t("ab"), bv_t(1, 1),
+               bv_t(1, 2), bv_t(5, 8), ARR_II, node("arrayValue", ("t", V(2)), FALSE_T),
+               node("arrayValue", ("t", I), node("arrayValue", ("t", I), real_t(0)))]
+CONST6 = [TRUE_T, int_t(7), real_t(Fraction(1, 2)), str_t("ab"), bv_t(5, 8), ARR_II]
+
+
+def grid_b_cases_constants(name, tier):
+    """literal arguments of every sort: several constructors (ToReal, Div, Pow, Not ...) have shortcuts on
+    constants that run before create_node"""
+    if name in UN_CTORS:
+        for c in CONST_TERMS:
+            yield (c,), ()
+    if name in BIN_CTORS:
+        for c in CONST_TERMS:
+            for d in CONST_TERMS:
+                yield (c, d), ()
+            for s_ in U6:
+                yield (c, arg_sym(1, s_)), ()
+                yield (arg_sym(0, s_), c), ()
+    if name in TER_CTORS:
+        for a in itertools.product(CONST6, repeat=3):
+            yield a, ()
+        for c in CONST6:
+            for d in CONST6:
+                for s_ in U6:
+                    yield (arg_sym(0, s_), c, d), ()
+                    yield (c, arg_sym(1, s_), d), ()
+                    yield (c, d, arg_sym(2, s_)), ()
+    if name in NARY_CTORS:
+        signs = [(False,), (True,)] if name in ("MinBV", "MaxBV") else [()]
+        for ex in signs:
+            for c in CONST_TERMS:
+                yield (c,), ex
+                for d in CONST_TERMS:
+                    yield (c, d), ex
+            for a in itertools.product(CONST6, repeat=3):
+                yield a, ex
+    if name in INT_CTORS:
+        for c in CONST_TERMS:
+            so = sort_of(c)
+            for (args, extra) in grid_b_cases_distinct(name, tier):
+                if args == arg_syms((so if so in U14 else B,)):
+                    yield (c,), extra
+    if name == "Function":
+        for fname, fs in FN_SYMS:
+            for a in itertools.product(CONST_TERMS, repeat=len(fs[2])):
+                yield a, (sym(fname, fs),)
+    if name in ("ForAll", "Exists"):
+        for vs in ((), (sym("qi", I),), (sym("qb", B), sym("qv", V(8)))):
+            for c in CONST_TERMS:
+                yield (c,), (vs,)
+
+
+def grid_b_cases_confusable(name, tier):
+    """argument sorts that print like another sort"""
+    if name in UN_CTORS:
+        for ss in itertools.product(UC, repeat=1):
+            yield arg_syms(ss), ()
+    if name in BIN_CTORS or name in NARY_CTORS:
+        signs = [(False,), (True,)] if name in ("MinBV", "MaxBV") else [()]
+        for ex in signs:
+            for ss in itertools.product(UC, repeat=2):
+                yield arg_syms(ss), ex
+    if name in ("Ite", "Store"):
+        for ss in itertools.product(UC, repeat=3):
+            yield arg_syms(ss), ()
+    if name == "Function":
+        dP = ("C", "Pair{Int}")
+        for fname, fs in [("fP", F(B, PAIR_INT)), ("fdP", F(B, dP)), ("fdI", F(I, ("C", "Int"))), ("f", F(I, I)),
+                          ("fAIR", F(B, A(I, R))), ("fdA", F(B, P("Array", I, R)))]:
+            for ss in itertools.product(UC, repeat=1):
+                yield arg_syms(ss), (sym(fname, fs),)
+        for fname, fs in [("hP", F(I, I, PAIR_INT)), ("hdP", F(I, I, dP))]:
+            for ss in itertools.product(UC, repeat=2):
+                yield arg_syms(ss), (sym(fname, fs),)
+    if name in ("ForAll", "Exists"):
+        for _, s_ in CONFUSABLE:
+            for b_ in (B, ("C", "Bool")):
+                yield arg_syms((b_,)), ((sym("qc_" + SNAME[s_], s_),),)
+    if name == "Array":
+        for idx in (PAIR_INT, ("C", "Pair{Int}"), ("C", "Int"), I):
+            for d in (int_t(0), arg_sym(0, ("C", "Int")), arg_sym(0, PAIR_INT)):
+                yield (d,), (idx, None)
+                for k in (int_t(1), arg_sym(1, ("C", "Int"))):
+                    yield (d,), (idx, ((k, int_t(5)),))
+
+
+def grid_b_cases_binders(name, tier):
+    """binder lists of length 2 and 3 mixing plain symbols, function symbols and non-symbols in every position"""
+    if name in ("ForAll", "Exists"):
+        pool = [sym("qi", I), sym("qb", B), sym("qf", F(I, I)), int_t(1)]
+        for n_ in (2, 3):
+            for vs in itertools.product(pool, repeat=n_):
+                for s_ in U6:
+                    yield arg_syms((s_,)), (tuple(vs),)
 
 
 def grid_b_cases_repeated(name, tier):
@@ -1548,7 +1796,7 @@ class Judge:
         """the python oracle and the Lean specification must agree; instances of the theorems"""
         ctx = self.ctx
         ty, wt, so, nof06, rot = chk
-        mine = sort_of(raw)
+        mine = canon_sort(sort_of(raw))
         if so != mine:
             ctx.report_k("oracle rank() and Spec.sortOf disagree on %s: %r vs %r" % (show_raw(raw), mine, so),
                          {"grid": what, "request": line, "term": show_raw(raw)})
@@ -1591,28 +1839,32 @@ def judge_grid_a(ctx, judge, results):
         ctx.count("A_" + ("ok" if impl_ok else "err"))
         # ---- S: the implementation against the sorting rules
         hole = classify_node(o, p, ss)
+        hk = homonym_key(list(sorts_of_raw(raw)))
         if impl_ok and rk is None:
             if o == "symbol" and p is not None and p[0] == "y" and is_fn(p[2]) and not ss:
                 pass        # a function symbol: a declaration, not a term
             else:
                 ctx.report_s({"oracle": "sort-rules", "via": "create_node", "kind": "accepted-ill-sorted",
-                              "op": o, "hole": hole, "shape": hole_shape(o, p, ss, hole)},
+                              "op": o, "hole": hole, "shape": hole_shape(o, p, ss, hole), "homonym": hk},
                              "create_node(%s) on (%s) payload %s returned a formula of type %s; the rules say ill-sorted"
                              % (o, sorts_key(ss), payload_key(p), sort_name(impl_ty) if isinstance(impl_ty, tuple) else impl_ty),
                              replay)
         elif impl_ok and rk != impl_ty:
             ctx.report_s({"oracle": "sort-rules", "via": "create_node", "kind": "wrong-type", "op": o,
-                          "sorts": sorts_key(ss)},
+                          "sorts": sorts_key(ss), "homonym": hk},
                          "create_node(%s): reported type %r, the rules give %r" % (o, impl_ty, rk), replay)
         elif (not impl_ok) and rk is not None:
             shape = "rotate-step-exceeds-width" if o in ("bvRol", "bvRor") and p[2] > p[1] else "sorts=" + sorts_key(ss)
             ctx.report_s({"oracle": "sort-rules", "via": "create_node", "kind": "rejected-well-sorted", "op": o,
-                          "shape": shape},
+                          "shape": shape, "homonym": hk},
                          "create_node(%s) on (%s) payload %s raised %s; the rules give %r"
                          % (o, sorts_key(ss), payload_key(p), res[1], rk), replay)
         # ---- K: the implementation against typeOf / wt
         if any(is_fn(s) for s in ss) or (o == "symbol" and p is not None and p[0] == "y" and is_fn(p[2])):
             ctx.count("A_k_skipped_function_symbol")
+            continue
+        if outside_model(raw):
+            ctx.count("A_k_skipped_homonymous_sorts")
             continue
 
         def cont(chk, line, raw=raw, o=o, p=p, ss=ss, impl_ok=impl_ok, impl_ty=impl_ty, replay=replay):
@@ -1621,7 +1873,7 @@ def judge_grid_a(ctx, judge, results):
             ty, wt, so, nof06, rot = chk
             judge.spec_checks(raw, chk, line, "A")
             lean_ok = wt and ty is not None
-            if lean_ok == impl_ok and (not impl_ok or ty == impl_ty):
+            if lean_ok == impl_ok and (not impl_ok or ty == canon_sort(impl_ty)):
                 return
             b = model_boundary(o, p, len(ss), impl_ok, lean_ok)
             if b is not None:
@@ -1677,8 +1929,11 @@ def classify_ctor(name, args, extra, pred):
 
 def extra_key(extra):
     def k(x):
-        if isinstance(x, tuple) and len(x) == 3 and isinstance(x[0], str) and isinstance(x[2], tuple):
+        if isinstance(x, tuple) and len(x) == 3 and isinstance(x[0], str) and x[0] in wire.OPID \
+                and isinstance(x[2], tuple):
             return show_raw(x)
+        if isinstance(x, tuple) and x and x[0] in ("P", "A", "C", "B", "I", "R", "S", "V", "F") and x in SNAME:
+            return SNAME[x]
         if isinstance(x, tuple):
             return "(" + ",".join(k(y) for y in x) + ")"
         return repr(x)
@@ -1703,11 +1958,30 @@ def judge_grid_b(ctx, judge, name, results):
                 isinstance(x, dict) and x.get("ctor") == name for x in ctx.samples):
             ctx.sample({"ctor": name, "sorts": replay["sorts"], "extra": replay["extra"], "type": sort_name(impl_ty)})
         # ---- S
-        sig = {"oracle": "sort-rules", "via": "constructor", "ctor": name, "shape": shape}
+        allsorts = set()
+        for a_ in args:
+            sorts_of_raw(a_, allsorts)
+        for x_ in extra:
+            if isinstance(x_, tuple) and len(x_) == 3 and isinstance(x_[0], str) and isinstance(x_[2], tuple) \
+                    and x_[0] in wire.OPID:
+                sorts_of_raw(x_, allsorts)
+            elif isinstance(x_, tuple) and x_ and x_[0] in ("P", "A", "C"):
+                sorts_in(x_, allsorts)
+            elif isinstance(x_, tuple):
+                for y_ in x_:
+                    if isinstance(y_, tuple) and len(y_) == 3 and y_[0] in wire.OPID:
+                        sorts_of_raw(y_, allsorts)
+        sig = {"oracle": "sort-rules", "via": "constructor", "ctor": name, "shape": shape,
+               "homonym": homonym_key(list(allsorts))}
         if impl_ok:
             if isinstance(raw, tuple):
-                rs = sort_of(raw)
-                if rs != impl_ty and not (raw[0] == "symbol" and is_fn(raw[1][2])):
+                if pred[0] == "tree" and canon_raw(pred[1]) == raw:
+                    rs = sort_of(pred[1])          # the same structure, with the sorts told apart
+                    bad = rs != impl_ty
+                else:
+                    rs = sort_of(raw)
+                    bad = canon_sort(rs) != canon_sort(impl_ty)
+                if bad and not (raw[0] == "symbol" and is_fn(raw[1][2])):
                     ctx.report_s(dict(sig, kind="result-ill-sorted"),
                                  "%s(%s)%s returned %s of reported type %r; by the rules its sort is %r"
                                  % (name, sorts_key(ss), extra_key(extra), show_raw(raw), impl_ty, rs), replay)
@@ -1733,8 +2007,11 @@ def judge_grid_b(ctx, judge, name, results):
         if pred[0] == "array":
             _, idx, d, pairs = pred
             if impl_ok:
-                okshape = (isinstance(raw, tuple) and raw[0] == "arrayValue" and raw[1] == ("t", idx) and raw[2][0] == d
-                           and frozenset(zip(raw[2][1::2], raw[2][2::2])) == pairs and len(raw[2]) == 1 + 2 * len(pairs))
+                okshape = (isinstance(raw, tuple) and raw[0] == "arrayValue" and raw[1] == ("t", canon_sort(idx))
+                           and raw[2][0] == canon_raw(d)
+                           and frozenset(zip(raw[2][1::2], raw[2][2::2])) == frozenset(
+                               (canon_raw(k_), canon_raw(v_)) for k_, v_ in pairs)
+                           and len(raw[2]) == 1 + 2 * len(pairs))
                 if not okshape:
                     ctx.report_k("Array: returned structure differs from the constructor table", replay)
                 tree = raw
@@ -1747,12 +2024,17 @@ def judge_grid_b(ctx, judge, name, results):
             tree = pred[1]
             if impl_ok and raw == "out-of-fragment":
                 ctx.count("B_k_structure_not_encodable")
-            elif impl_ok and raw != tree:
+            elif impl_ok and raw != canon_raw(tree) and outside_model(tree):
+                ctx.count("B_k_structure_homonymous_sorts")     # sorts that print alike: S only (F61)
+            elif impl_ok and raw != canon_raw(tree):
                 ctx.report_k("%s on (%s)%s: returned structure %s, constructor table says %s"
                              % (name, sorts_key(ss), extra_key(extra),
                                 show_raw(raw) if isinstance(raw, tuple) else raw, show_raw(tree)), replay)
         if has_fn_term(tree):
             ctx.count("B_k_skipped_function_symbol")
+            continue
+        if outside_model(tree):
+            ctx.count("B_k_skipped_homonymous_sorts")
             continue
 
         def cont(chk, line, tree=tree, impl_ok=impl_ok, impl_ty=impl_ty, replay=replay, name=name):
@@ -1761,7 +2043,7 @@ def judge_grid_b(ctx, judge, name, results):
             ty, wt, so, nof06, rot = chk
             judge.spec_checks(tree, chk, line, "B")
             lean_ok = wt and ty is not None
-            if lean_ok == impl_ok and (not impl_ok or ty == impl_ty):
+            if lean_ok == impl_ok and (not impl_ok or ty == canon_sort(impl_ty)):
                 return
             ctx.report_k("%s: implementation %r, model typeOf=%r wt=%s on %s"
                          % (name, (impl_ok, impl_ty), ty, wt, show_raw(tree)),
